@@ -11,7 +11,7 @@
  * argv[1] = base directory; script number k runs in <base>/s<k> (OVNI_TRACEDIR)
  * env RT_TMPDIR=1: additionally use <base>/s<k>.tmp as OVNI_TMPDIR
  * env RT_FAULT="<kind>:<n>:<what>": fail the n-th intercepted call of a kind
- *     (kind "any" counts all calls); what = ENOSPC | EIO | EACCES | short.
+ *     (kind "any" counts all calls); what = ENOSPC | EIO | EACCES | EINTR | short.
  *     A failed fclose discards the stdio buffer (the flush failed); a failed
  *     close truncates the file to its size before the last write on that
  *     descriptor (a deferred write error reported at close).
@@ -115,6 +115,7 @@ static int gate(int kind)
 		if (strcmp(fault_what, "short") == 0) return -2;
 		if (strcmp(fault_what, "ENOSPC") == 0) return ENOSPC;
 		if (strcmp(fault_what, "EACCES") == 0) return EACCES;
+		if (strcmp(fault_what, "EINTR") == 0) return EINTR;
 		return EIO;
 	}
 	return 0;
